@@ -699,3 +699,93 @@ def _inline_call(qual, params):
 
 _R[KEYS + "VerifyingKey.from_public_key_recovery_with_digest"].apply_fn = _inline_call(
     KEYS + "VerifyingKey.from_public_key_recovery_with_digest", ["cls", "signature", "digest", "curve", "hashfunc", "sigdecode", "allow_truncate"])
+
+
+# ---- message-level entry points (C01): sign / sign_deterministic / verify hash the data and delegate -------------------
+# Their contracts are the digest-level contracts read on digest = hashfunc(data).digest(); the hash function is an
+# arbitrary function of the data (one fixed non-empty digest per world), given explicitly or taken from default_hashfunc.
+def _msg_env(ex, F, W, env, explicit_hash):
+    digest = ex.fresh_bytes("digest")
+    ex.assume(blen(digest) >= 1)
+    data = ex.fresh_bytes("data")
+    hf = _hash_of(ex, data, digest)
+    env["data"] = data
+    env["_digest"] = digest
+    if explicit_hash:
+        env["hashfunc"] = hf
+    else:
+        env["hashfunc"] = None
+        W["sk"].fields["default_hashfunc"] = hf
+        W["vk"].fields["default_hashfunc"] = hf
+    return env
+
+
+def _with_digest(post):
+    def p2(ex, F, env, out, snap):
+        env2 = dict(env)
+        env2["digest"] = env["_digest"]
+        for item in post(ex, F, env2, out, snap):
+            yield item
+    return p2
+
+
+def _sign_setup(nonce, trunc, canon, explicit_hash):
+    def setup(ex, F):
+        W = mk_key_world(ex, F)
+        env = {"self": W["sk"], "entropy": None, "sigencode": mk_sigencode(canon), "k": None, "allow_truncate": trunc}
+        if nonce == "explicit":
+            env["k"] = mk_nonce(ex, F)
+        return _msg_env(ex, F, W, env, explicit_hash)
+    return setup
+
+
+kmethod("SigningKey", "sign", [("k-%s,truncate=%s,%s,%s" % (nc, tr, "low-s" if cn else "plain", "hashfunc" if eh else "default-hash"), _sign_setup(nc, tr, cn, eh))
+                               for nc in ("explicit", "none") for tr in (True, False) for (cn, eh) in ((False, True), (True, False))],
+        _with_digest(_sd_post), None, props=("C01",))
+
+
+def _signdet_setup(canon, explicit_hash):
+    def setup(ex, F):
+        W = mk_key_world(ex, F)
+        ex.gk_calls = []
+        env = {"self": W["sk"], "sigencode": mk_sigencode(canon), "extra_entropy": ex.fresh_bytes("extra")}
+        return _msg_env(ex, F, W, env, explicit_hash)
+    return setup
+
+
+def _sdet_post(ex, F, env, out, snap):
+    # sign_deterministic(data) == sign_digest_deterministic(hashfunc(data).digest(), ..., allow_truncate=True)
+    env2 = dict(env)
+    env2["digest"] = env["_digest"]
+    if env2.get("hashfunc") is None:
+        env2["hashfunc"] = env["self"].fields["default_hashfunc"]
+    for item in _sdd_post(ex, F, env2, out, snap):
+        yield item
+
+
+def _sdet_post_allow(ex, F, env, out, snap):
+    env2 = dict(env)
+    env2["allow_truncate"] = True           # sign_deterministic always lets the digest be truncated
+    for item in _sdet_post(ex, F, env2, out, snap):
+        yield item
+
+
+kmethod("SigningKey", "sign_deterministic", [("%s,%s" % ("low-s" if cn else "plain", "hashfunc" if eh else "default-hash"), _signdet_setup(cn, eh))
+                                             for (cn, eh) in ((False, True), (True, False))], _sdet_post_allow, None, props=("C01", "C04"))
+
+
+def _verify_setup(trunc, kind, explicit_hash):
+    def setup(ex, F):
+        W = mk_key_world(ex, F)
+        if kind == "bytes":
+            sig = ex.fresh_bytes("sigbytes")
+        else:
+            sig = Encoded(F.atom("r", "free"), F.atom("s", "free"), W["n"])
+        env = {"self": W["vk"], "signature": sig, "sigdecode": mk_sigdecode(), "allow_truncate": trunc}
+        return _msg_env(ex, F, W, env, explicit_hash)
+    return setup
+
+
+kmethod("VerifyingKey", "verify", [("truncate=%s,%s,%s" % (t, k, "hashfunc" if eh else "default-hash"), _verify_setup(t, k, eh)) for t in (True, False)
+                                   for (k, eh) in (("bytes", True), ("decodable", False), ("decodable", True))],
+        _with_digest(_vd_post), None, props=("C01", "C02"))
